@@ -14,13 +14,14 @@ pub fn prop_from_file_text(s: &str) -> Option<String> {
     v.get("property").and_then(|p| p.as_str()).map(|s| s.to_string())
 }
 
-pub fn write_failure(root: &str, prop: &str, case: &Case, v: &Violation) -> String {
+pub fn write_failure(root: &str, prop: &str, case: &Case, v: &Violation, reuse_addresses: bool) -> String {
     let path = format!("{root}/failures/{prop}-{:016x}.json", case.hash64());
     let body = serde_json::json!({
         "property": prop,
         "oracle": format!("{}:{}", v.prop, v.tag),
         "message": v.msg,
         "at_step": v.step,
+        "reuse_addresses": reuse_addresses,
         "case": serde_json::to_value(case).unwrap(),
     });
     let _ = std::fs::create_dir_all(format!("{root}/failures"));
